@@ -1,7 +1,8 @@
 /* libc shim linked in front of libc into the tools: read/write/open/getrandom follow a plan from the environment.
  *   VP_FAIL_READ=k / VP_FAIL_WRITE=k / VP_FAIL_OPEN=k / VP_FAIL_RAND=k : the k-th such call (0-based, file descriptors > 2 only) fails
  *   VP_ERRNO=n  errno for the failure (default EIO)        VP_EINTR_READ=k / VP_EINTR_WRITE=k : one EINTR before call k proceeds
- *   VP_SHORT=1  every read/write transfers at most 1 byte  VP_COUNTS=file : write "reads writes opens rands" at exit */
+ *   VP_SHORT=1  every read/write transfers at most 1 byte  VP_COUNTS=file : write "reads writes opens rands" at exit
+ *   VP_STDIO=1  descriptors 0 and 1 are subject to the plan too (stdin/stdout modes of asconcrypt) */
 #define _GNU_SOURCE
 #include <unistd.h>
 #include <sys/syscall.h>
@@ -12,25 +13,25 @@
 #include <stdarg.h>
 #include <fcntl.h>
 static long nread, nwrite, nrand, nopen; static int inited;
-static long fail_read = -1, fail_write = -1, fail_rand = -1, fail_open = -1, eintr_read = -1, eintr_write = -1; static int short_io, fail_errno = EIO;
+static long fail_read = -1, fail_write = -1, fail_rand = -1, fail_open = -1, eintr_read = -1, eintr_write = -1; static int short_io, stdio_too, fail_errno = EIO;
 static void init(void)
 {
     const char *e; if (inited) return; inited = 1;
     if ((e = getenv("VP_FAIL_READ"))) fail_read = atol(e); if ((e = getenv("VP_FAIL_WRITE"))) fail_write = atol(e);
     if ((e = getenv("VP_FAIL_RAND"))) fail_rand = atol(e); if ((e = getenv("VP_FAIL_OPEN"))) fail_open = atol(e);
     if ((e = getenv("VP_EINTR_READ"))) eintr_read = atol(e); if ((e = getenv("VP_EINTR_WRITE"))) eintr_write = atol(e);
-    if ((e = getenv("VP_SHORT"))) short_io = atoi(e); if ((e = getenv("VP_ERRNO"))) fail_errno = atoi(e);
+    if ((e = getenv("VP_SHORT"))) short_io = atoi(e); if ((e = getenv("VP_STDIO"))) stdio_too = atoi(e); if ((e = getenv("VP_ERRNO"))) fail_errno = atoi(e);
 }
 ssize_t read(int fd, void *b, size_t n)
 {
     init();
-    if (fd > 2) { if (nread == eintr_read) { eintr_read = -1; errno = EINTR; return -1; } long k = nread++; if (k == fail_read) { errno = fail_errno; return -1; } if (short_io && n > 1) n = 1; }
+    if (fd > 2 || (stdio_too && fd < 2)) { if (nread == eintr_read) { eintr_read = -1; errno = EINTR; return -1; } long k = nread++; if (k == fail_read) { errno = fail_errno; return -1; } if (short_io && n > 1) n = 1; }
     return syscall(SYS_read, fd, b, n);
 }
 ssize_t write(int fd, const void *b, size_t n)
 {
     init();
-    if (fd > 2) { if (nwrite == eintr_write) { eintr_write = -1; errno = EINTR; return -1; } long k = nwrite++; if (k == fail_write) { errno = fail_errno; return -1; } if (short_io && n > 1) n = 1; }
+    if (fd > 2 || (stdio_too && fd < 2)) { if (nwrite == eintr_write) { eintr_write = -1; errno = EINTR; return -1; } long k = nwrite++; if (k == fail_write) { errno = fail_errno; return -1; } if (short_io && n > 1) n = 1; }
     return syscall(SYS_write, fd, b, n);
 }
 int open(const char *path, int flags, ...)
